@@ -7,10 +7,52 @@
 #include "verif.hpp"
 #include "caps_update.hpp"
 #include <yorel/yomm2/core.hpp>
+#ifdef C13_PRODUCE
+// C13, stage 1 (native only): the real generator::encode_dispatch_data writes the text of the registry's update result
+#include <cstdio>
+#include <sstream>
+#include <typeinfo>
+#include <yorel/yomm2/generator.hpp>
+template<int K> struct c13_tag {};  // class ids are type_info addresses here: the encoder prints the class names
+#endif
+#ifdef C13_DECODE
+// C13, stage 2: the real decode_dispatch_data runs on the numbers of that text (c13_data.h, regenerated on every run)
+// every position the decoder reads (KIND 0, 3: 16-bit words; 2: table word) or writes (1, 2: 64-bit words) must lie inside 'init'
+static void c13_access(int kind, const void* p, const void* base, std::size_t size) {
+    std::ptrdiff_t off = (const char*)p - (const char*)base;
+    std::ptrdiff_t width = (kind == 0 || kind == 3) ? 2 : 8;
+    bool inside = off >= 0 && off + width <= (std::ptrdiff_t)size;
+    verif_assert(inside, 62);
+    if (!inside) verif_end_path();  // the decoder has left the emitted structure: nothing it does afterwards is meaningful
+}
+#define YOMM2_VERIF_DECODE_ACCESS(KIND, PTR, INIT) c13_access(KIND, (const void*)(PTR), (const void*)&(INIT), sizeof(INIT))
+#include <yorel/yomm2/decode.hpp>
+#endif
 using namespace yorel::yomm2;
 using namespace yorel::yomm2::detail;
 
 #include "registry.h"
+#ifdef C13_DECODE
+#include "c13_data.h"
+#if !C13_TEXT_INVALID
+// exactly the structure the generator declares (sizes C13_H / C13_S / C13_E / C13_D / C13_T parsed from the emitted text)
+struct c13_data_t {
+    union {
+        struct {
+#if C13_H > 0
+            std::uint16_t headroom[C13_H];
+#endif
+            std::uint16_t slots[C13_S];
+            std::uint16_t vtbls[C13_E];
+        } encoded;
+        std::uintptr_t vtbls[C13_D];
+    };
+    std::uintptr_t dtbls[C13_T > 0 ? C13_T : 1];
+};
+#define C13_GUARD 6
+static struct { std::uintptr_t pre[C13_GUARD]; c13_data_t d; std::uintptr_t post[C13_GUARD]; } c13w;
+#endif
+#endif
 
 #ifndef POL
 #define POL 1
@@ -289,6 +331,11 @@ static std::uintptr_t checked_walk(int m, const int* args) {
     return P::dispatch_data[disp];
 }
 
+#ifdef C13_DECODE
+static Obj c13_objs[NM][4];
+static std::uintptr_t c13_want[NM];
+#endif
+
 extern "C" void cbmc_main() {
     ll2c_run_global_ctors();
     closure();
@@ -342,6 +389,15 @@ extern "C" void cbmc_main() {
     comp.compile();
     comp.install_global_tables();
     installed = true;
+#ifdef C13_PRODUCE
+    {
+        std::ostringstream os;
+        generator::encode_dispatch_data(comp, "P", os);
+        std::printf("C13-BEGIN\n%s\nC13-END\n", os.str().c_str());
+        std::fflush(stdout);
+        std::exit(0);
+    }
+#endif
 #if UNREG_POS
     verif_assert(0, 45);  // update accepted an unregistered class silently
 #endif
@@ -428,6 +484,10 @@ extern "C" void cbmc_main() {
         verif_assert(walked == want, 1);
         std::uintptr_t got = call_real(m, objs);
         verif_assert(got == want, 2);
+#ifdef C13_DECODE
+        for (int p = 0; p < 4; p++) c13_objs[m][p] = objs[p];
+        c13_want[m] = got;
+#endif
         if (w == OR_NONE) VERIF_COVER(901);
         if (w == OR_AMBIG) VERIF_COVER(902);
         if (w >= 0) VERIF_COVER(903);
@@ -466,6 +526,40 @@ extern "C" void cbmc_main() {
         verif_assert(comp.report.cells == cells, 54);
         verif_out(nmiss); verif_out(nambig);
     }
+#endif
+#ifdef C13_DECODE
+    // ---- C13: decode the emitted data in a process holding the same registrations ---------------
+#if C13_TEXT_INVALID
+    verif_assert(0, 64);  // the emitted text is not valid C++ (negative array size / more initialisers than elements)
+#else
+    {
+        std::size_t snap_ss[NM][7];
+        for (int m = 0; m < NM; m++) for (int k = 0; k < 2 * M_AR[m] - 1; k++) { snap_ss[m][k] = minfo(m)->slots_strides_ptr[k]; minfo(m)->slots_strides_ptr[k] = 0x7777; }
+        // a fresh process: no class has a v-table yet, nothing of update's own tables remains
+        for (int c = 0; c < NC; c++) svptr[c] = nullptr;
+        for (std::size_t i = 0; i < P::dispatch_data.size(); i++) P::dispatch_data[i] = 0xDEAD0000 + i;
+        for (std::size_t i = 0; i < P::vptrs.size(); i++) P::vptrs[i] = nullptr;
+        // the memory around the emitted structure is ARBITRARY: decoding must neither depend on it nor change it
+        std::uintptr_t pre[C13_GUARD], post[C13_GUARD];
+        for (int i = 0; i < C13_GUARD; i++) { pre[i] = c13w.pre[i] = nondet_u64(); post[i] = c13w.post[i] = nondet_u64(); }
+        for (int i = 0; i < C13_S; i++) c13w.d.encoded.slots[i] = i < C13_NS ? C13_SLOTS[i] : 0;
+        for (int i = 0; i < C13_E; i++) c13w.d.encoded.vtbls[i] = i < C13_NV ? C13_VT[i] : 0;
+        for (int i = 0; i < C13_T; i++) c13w.d.dtbls[i] = i < C13_ND ? C13_DT[i] : 0;
+        VERIF_COVER(959);
+        decode_dispatch_data<P>(c13w.d);
+        bool guards = true;
+        for (int i = 0; i < C13_GUARD; i++) guards = guards && c13w.pre[i] == pre[i] && c13w.post[i] == post[i];
+        verif_assert(guards, 61);  // a write outside the emitted structure
+        bool same = true;
+        for (int m = 0; m < NM; m++) for (int k = 0; k < 2 * M_AR[m] - 1; k++) same = same && snap_ss[m][k] == minfo(m)->slots_strides_ptr[k];
+        verif_assert(same, 63);    // slots and strides as update installed them
+        for (int m = 0; m < NM; m++) {
+            std::uintptr_t got = call_real(m, c13_objs[m]);
+            verif_assert(got == c13_want[m], 60);  // every call behaves as after update (for every argument tuple, every surrounding memory)
+        }
+        VERIF_COVER(960);
+    }
+#endif
 #endif
     VERIF_COVER(999);
 }
